@@ -13,7 +13,7 @@ CHECKS = {
     "C02": ("other", "term-level delegation agreement and strictness checks on find_region and the provided methods of GuestMemory / GuestMemoryRegion",
             "find_region's arms (index tested == index returned, x > 0, inclusive last), search key = start_addr, POS < LEN and LAST = start + (len-1), and every derived query as the stated function of find_region/try_access. Necessary conditions of the set-theoretic reading for every layout and address; the value-level truth table is not decided.",
             "Trusted: binary_search_by_key on a sorted slice, Option/Result/Iterator combinators; sortedness from C10.", "DESIGN.md §3 C02"),
-    "C03": ("other", "protocol checks on try_access (callback argument roles, total/cur updates, exit table from dominating facts), its eight clients, the error-mapping table and the ten region forwarders",
+    "C03": ("other", "protocol checks on try_access (callback argument roles, total/cur updates, exit table from dominating facts), its eight clients, the error-mapping table, the ten region forwarders and the slice-level exact stream forms (whole range checked at once, then the exact loop)",
             "Decides the chunking protocol and the role of every closure parameter for all layouts/addresses/lengths; byte contents are not decided.",
             "Trusted: C02 (lookup), C04 (copy primitives), core checked/overflowing arithmetic.", "DESIGN.md §3 C03"),
     "C04": ("other", "operand agreement at every copy site (min over both sides, returned counts), start-bound strictness, who-may-touch table over effect-discovered accesses, object-route identity by MIR local",
@@ -22,7 +22,7 @@ CHECKS = {
     "C06": ("other", "width-table, stride/decrement agreement, alignment gate over both pointers, descending width order, routing strictness, call-graph containment of all small-object routes, ordering forwarders",
             "The access sequence issued for <= 8-byte transfers is built only from single volatile accesses justified by the alignment of both addresses, and every buffer/object route at three layers ends there. Schedules and codegen are not decided.",
             "Trusted: codegen of aligned volatile machine-width accesses; atomics honour the Ordering.", "DESIGN.md §3 C06"),
-    "C05": ("other", "effect pairing on resolved MIR: write primitives discovered by callee, pointer provenance classification, post-dominating mark_dirty with agreeing extent; derivation offset agreement; forwarder agreement; raw-handle exemption table",
+    "C05": ("other", "effect pairing on resolved MIR: write primitives discovered by callee, pointer provenance classification, post-dominating mark_dirty with agreeing extent in bytes (pointee width of counted primitives read from the resolved callee); derivation offset agreement; forwarder agreement; raw-handle exemption table",
             "For every guest-memory write in every feature configuration (incl. mmap/Xen code no baseline test compiles) a mark on the owning accessor's bitmap post-dominates the write with a covering extent, and every accessor derivation moves pointer and bitmap by the same offset: soundness of tracking for all operations, offsets, lengths and derivation chains by induction. Page arithmetic inside AtomicBitmap is covered by C09/C16 form rules only.",
             "Trusted: libc::read writes at most count bytes; atomics; unsafe-constructor contracts; rustc MIR. Does not decide the page-division identity.", "DESIGN.md §3 C05"),
     "C07": ("other", "exhaustive panic-edge / silent-wrap census over all MIR bodies; discharge by dominating facts, an interval + ordering-closure domain and failure summaries of the crate's checked helpers, else a reviewed-edge table; loop-shape recognition",
@@ -58,8 +58,8 @@ CHECKS = {
     "C17": ("other", "unit typing of guard lengths, provenance of every raw guest access (must be a guard of its accessor), MIR guard liveness, Xen window ownership/forwarding/arithmetic form",
             "Structural necessary conditions for every accessor kind and element type in FULL and XEN (the Xen backend is compiled by no baseline test). Three reference-returning APIs are recorded as open known findings (F2b).",
             "Trusted: gntdev/munmap behaviour; Rust drop semantics; rustc MIR.", "DESIGN.md §3 C17"),
-    "C18": ("other", "dominance check recursive over delegation on every Bytes::read/write impl; zero-size guard on every division/offset_from by size_of::<T>()",
-            "For every layer the empty-buffer edge returns Ok(0) before any fallible step, or the body forwards unconditionally to one that does; ZST arithmetic is guarded. For all addresses including unmapped ones.",
+    "C18": ("other", "dominance check recursive over delegation on every Bytes::read/write impl; zero-size guard on every division/offset_from by size_of::<T>(); len != 0 dominance on every bit mutator reachable from a Bitmap::mark_dirty impl",
+            "For every layer the empty-buffer edge returns Ok(0) before any fallible step, or the body forwards unconditionally to one that does; ZST arithmetic is guarded; every mark_dirty implementation is a no-op for len == 0 (hands its own len to the range routine, reaches set_bit / an RMW only where len != 0 is known). For all addresses including unmapped ones.",
             "Trusted: tabled-infallible steps between layers; rustc MIR.", "DESIGN.md §3 C18"),
     "C19": ("proof", "MIR term matching of every Address method against the core integer intrinsic it must be; derive/field facts; compile-fail witnesses",
             "Each operation of both address types is shown, on the resolved MIR, to be the same-named core integer intrinsic applied to the raw "
